@@ -40,6 +40,9 @@ func init() {
 		v + "Assert":  rtAssert,
 		v + "Note":    func(fr *frame, a []value) value { return nil },
 		v + "Interleave": rtInterleave,
+		v + "Threads":    func(fr *frame, a []value) value { return runSession(fr, []value{a[0]}) },
+		v + "DelayBound": func(fr *frame, a []value) value { E.preemptBound = int(asInt64(a[0])); return nil },
+		v + "SingleProc": func(fr *frame, a []value) value { return nil },
 		v + "StepBudget": func(fr *frame, a []value) value {
 			n := asInt64(a[0])
 			if n <= 0 {
@@ -221,11 +224,17 @@ func init() {
 		"(*sync.RWMutex).RLock":   func(fr *frame, a []value) value { syncPoint("rlock", a[0].(*value)); return nil },
 		"(*sync.RWMutex).RUnlock": func(fr *frame, a []value) value { syncPoint("runlock", a[0].(*value)); return nil },
 		"(*sync.Once).Do":         onceDo,
+		"(*sync.WaitGroup).Add":   wgAdd,
+		"(*sync.WaitGroup).Done":  wgDone,
+		"(*sync.WaitGroup).Wait":  wgWait,
+		"(*sync.Map).LoadOrStore": smLoadOrStore,
+		"(*sync.Map).Load":        smLoad,
+		"(*sync.Map).Store":       smStore,
+		"(*sync.Map).Delete":      smDelete,
 		"sort.Slice":              sortSliceUnstable,
 		"sort.SliceStable":        sortSlice,
 		"sort.Strings":            sortStrings,
 		"os.Getenv":               func(fr *frame, a []value) value { return "" },
-		"runtime.GOMAXPROCS":      func(fr *frame, a []value) value { return 1 },
 		"runtime.NumCPU":          func(fr *frame, a []value) value { return 1 },
 
 		"math/big.NewInt":            bigNewInt,
